@@ -122,6 +122,29 @@ namespace {
           extra += ",\"shape\":" + shape_json(chai->verif_stack_shape());
           rec = outcome_json(o, env, extra);
         }
+      } else if (op == "eval_cs") {
+        // C20: evaluate a chunk under a file label (or a file) and report the call stack of a resulting eval_error
+        std::string cs = "[";
+        std::string oc = "val", why;
+        try {
+          if (st.find("path") != nullptr) { chai->eval_file(st.str("path")); }
+          else { chai->eval(st.str("src"), Exception_Handler(), st.str("file", "__EVAL__")); }
+        } catch (const chaiscript::exception::eval_error &e) {
+          oc = "ee";
+          why = e.reason;
+          bool f4 = true;
+          for (const auto &t : e.call_stack) {
+            cs += std::string(f4 ? "" : ",") + "{\"t\":" + jstr(chaiscript::ast_node_type_to_string(t.identifier)) + ",\"x\":" + jstr(t.text.substr(0, 40))
+                  + ",\"f\":" + jstr(t.filename()) + ",\"l\":" + std::to_string(t.start().line) + ",\"c\":" + std::to_string(t.start().column)
+                  + ",\"el\":" + std::to_string(t.end().line) + ",\"ec\":" + std::to_string(t.end().column) + "}";
+            f4 = false;
+          }
+        } catch (const Boxed_Value &) { oc = "bv";
+        } catch (const std::exception &e) { oc = "ex"; why = e.what(); }
+        cs += "]";
+        rec = "{\"oc\":" + jstr(oc) + ",\"why\":" + jstr(why) + ",\"cs\":" + cs + ",\"shape\":" + shape_json(chai->verif_stack_shape()) + ",\"out\":[";
+        for (size_t i = 0; i < env.outs.size(); ++i) { rec += (i ? "," : "") + jstr(env.outs[i]); }
+        rec += "]}";
       } else if (op == "parse") {
         Outcome o = classify(*chai, [&]() -> Boxed_Value {
           auto p = chai->parse(st.str("src"));
